@@ -2,7 +2,7 @@
     Client/Mux.v.  The Mux model is run under one canonical schedule (every
     schedule gives the same outcome: MuxProofs); the real runs are concurrent. *)
 From Coq Require Import NArith Arith List Bool.
-From P9V Require Import Client.Pool Client.Mux Client.Fids.
+From P9V Require Import gen.ClientGen Client.Pool Client.Mux Client.Fids.
 Import ListNotations.
 Open Scope nat_scope.
 
@@ -37,7 +37,7 @@ Fixpoint find_idx (f : tstate -> bool) (l : list tstate) (i : nat) : option nat 
   end.
 
 Definition try_step (m : mst) (a : action) : mst :=
-  match step true true true m a with Some m' => m' | None => m end.
+  match step true true true recv_error_marks_dead m a with Some m' => m' | None => m end.
 
 Definition feed (m : mst) (j : nat) (it : sitem) : mst :=
   match it with
@@ -46,7 +46,7 @@ Definition feed (m : mst) (j : nat) (it : sitem) : mst :=
   | SWrong i => try_step m (AFrame j (tag_of i) false)
   | SGarbage | SClose => try_step m (ARecvErr j)
   | SShort i =>
-      match step true true true m (AFrame j (tag_of i) true) with
+      match step true true true recv_error_marks_dead m (AFrame j (tag_of i) true) with
       | Some m' => match get (thr m') j with
                    | TLooked _ _ _ _ _ => try_step m' (ABody j false)
                    | _ => m'                       (* unknown tag: already broadcast *)
@@ -118,7 +118,7 @@ Definition agrees (c : c10case) : bool :=
   | CBatch n phases outcomes =>
       all2 obs_matches (thr (run_phases (init n) phases)) outcomes
   | CTrace n tr outcomes =>
-      match run true true true (init n) tr with
+      match run true true true recv_error_marks_dead (init n) tr with
       | Some m => all2 obs_matches (thr m) outcomes
       | None => false
       end
